@@ -167,7 +167,10 @@ impl C10<'_> {
                     self.baseline.insert(k.clone(), v.clone());
                 }
                 Some(old) if old != v => {
-                    self.ex.out.oracle_fail(&format!("main-chain-answer-changed-{}:{}", when, acc), &format!("{} before `{}` now `{}`", k, old, v));
+                    // the accessors that read the kv rows only (no freezer dispatch in store.rs)
+                    let part = ["get_block_body", "get_block_txs_hashes", "get_cellbase", "get_block_uncles", "get_block_proposal_txs_ids", "get_block_extension", "get_packed_block"].contains(&acc);
+                    let class = if part { format!("frozen-block-part-accessor-changed:{}", acc) } else { format!("main-chain-answer-changed:{}", acc) };
+                    self.ex.out.oracle_fail(&class, &format!("({}) {} before `{}` now `{}`", when, k, old, v));
                 }
                 _ => {}
             }
@@ -254,7 +257,7 @@ impl C10<'_> {
                         if id.starts_with('b') {
                             let c: Vec<char> = f.chars().collect();
                             if c[1] == '!' || c[1] == 'P' {
-                                self.ex.out.oracle_fail("get_block-by-hash-wrong-or-panics", &format!("{} {}", id, f));
+                                self.ex.out.oracle_fail("get_block-by-hash-returns-other-block", &format!("{} {} (a stored block whose height is below freezer.number is answered with the frozen main-chain block of that height)", id, f));
                             }
                             if c[0] == '0' && *c.last().unwrap() == 'm' {
                                 self.ex.out.oracle_fail("main-chain-header-missing", id);
@@ -313,10 +316,18 @@ fn gen_case(c: &mut C10, rng: &mut Rng) {
         c.apply("freeze");
         c.apply("restart");
         c.apply("query");
-        // a side block arriving late at an already frozen height
+        // second pass without new blocks: nothing more to do, must be idempotent
+        if rng.chance(1, 2) {
+            c.apply("freeze");
+            c.apply("query");
+        }
+        // a side block arriving late at an already frozen height — last thing in the case, because
+        // from then on every restart re-submits it (InitLoadUnverified) through get_block(hash),
+        // which hands back the frozen main-chain block of that height: an asynchronous re-insert of
+        // that block's body rows that the line protocol cannot order
         let tip = c.ex.tip_id();
         let frozen = c.frozen_seen;
-        if frozen > 2 && rng.chance(2, 3) {
+        if round == rounds - 1 && frozen > 2 && rng.chance(2, 3) {
             let tipn = c.ex.ablocks[&tip].number;
             let hgt = rng.range(1, frozen - 1);
             let p = c.ex.ancestor(tip, tipn - (hgt - 1));
@@ -325,11 +336,6 @@ fn gen_case(c: &mut C10, rng: &mut Rng) {
                 c.ex.out_count("late_side_block_at_frozen_height");
                 c.apply("query");
             }
-        }
-        // second pass without new blocks: nothing more to do, must be idempotent
-        if rng.chance(1, 2) {
-            c.apply("freeze");
-            c.apply("query");
         }
         target += l * rng.range(1, 2) + rng.below(l);
         let _ = round;
